@@ -65,13 +65,13 @@ func (f c20Flags) args() []string {
 		a = append(a, "-s", "p=urn:u")
 	}
 	if f.V {
-		a = append(a, "-v", "v=hello")
+		a = append(a, "-v", "v= hello\t")
 	}
 	if f.U {
 		a = append(a, "-u")
 	}
 	if f.E {
-		a = append(a, "-e", "corp=ACME")
+		a = append(a, "-e", "corp= ACME ")
 	}
 	return a
 }
@@ -121,7 +121,7 @@ func c20Expected(path, display string, data []byte, f c20Flags, expr string) c20
 		cur, err = xsel.ReadXml(bytes.NewReader(data), func(d *xml.Decoder) {
 			d.Strict = !f.U
 			if f.E {
-				d.Entity = map[string]string{"corp": "ACME"}
+				d.Entity = map[string]string{"corp": " ACME "}
 			}
 		})
 	case "html":
@@ -143,7 +143,7 @@ func c20Expected(path, display string, data []byte, f c20Flags, expr string) c20
 		settings = append(settings, xsel.WithNS("p", "urn:u"))
 	}
 	if f.V {
-		settings = append(settings, xsel.WithVariable("v", xsel.String("hello")))
+		settings = append(settings, xsel.WithVariable("v", xsel.String(" hello\t")))
 	}
 	res, err := xsel.Exec(cur, &g, settings...)
 	if err != nil {
